@@ -129,3 +129,24 @@ func (o *Once) doSlow(f func()) {
 		f()
 	}
 }
+
+// WaitGroup wraps the real one (whose Done->Wait edge the race detector knows) and mirrors its counter,
+// so that Wait can poll instead of blocking the only running task.
+type WaitGroup struct {
+	wg sync.WaitGroup
+	n  atomic.Int64
+}
+
+func (w *WaitGroup) Add(delta int) {
+	w.n.Add(int64(delta))
+	w.wg.Add(delta)
+}
+
+func (w *WaitGroup) Done() { w.Add(-1) }
+
+func (w *WaitGroup) Wait() {
+	for sched.InTask() && w.n.Load() > 0 {
+		sched.Poll("waitgroup.wait")
+	}
+	w.wg.Wait()
+}
